@@ -111,11 +111,26 @@ static void describe( cm::bounded_vyukov_queue_pool<T, Tr>& p, PoolDesc& d )
     reg_name( &p.m_Queue.m_ItemCounter, sizeof( p.m_Queue.m_ItemCounter ), "count" );
 }
 
+// content of the free queue at a quiescent point, oldest first (reads the ring between the two positions)
+template <class Q>
+static std::vector<Obj*> ring_content( Q& q )
+{
+    std::vector<Obj*> v;
+    set_quiet( true );
+    size_t deq = q.m_posDequeue.load( atomics::memory_order_relaxed ), enq = q.m_posEnqueue.load( atomics::memory_order_relaxed );
+    size_t mask = q.capacity() - 1;
+    for ( size_t pos = deq; pos != enq; ++pos )
+        v.push_back( q.m_buffer[pos & mask].data );
+    set_quiet( false );
+    return v;
+}
+
 struct IPool {
     PoolDesc d;
     virtual ~IPool() {}
     virtual Obj* alloc() = 0;           // may throw std::bad_alloc
     virtual void free( Obj* p ) = 0;
+    virtual std::vector<Obj*> content() = 0;
 };
 
 template <class Pool>
@@ -124,6 +139,7 @@ struct PoolV : IPool {
     explicit PoolV( size_t cap ) : pool( cap ) { describe( pool, d ); }
     Obj* alloc() override { return pool.allocate( 1 ); }
     void free( Obj* p ) override { pool.deallocate( p, 1 ); }
+    std::vector<Obj*> content() override { return ring_content( pool.m_Queue ); }
 };
 
 // pool_allocator reaches its pool through a default-constructed accessor functor
@@ -140,6 +156,7 @@ struct AllocV : IPool {
     ~AllocV() { s_pool = nullptr; }
     Obj* alloc() override { return alloc_t().allocate( 1 ); }
     void free( Obj* p ) override { alloc_t().deallocate( p, 1 ); }
+    std::vector<Obj*> content() override { return ring_content( pool.m_Queue ); }
 };
 template <class Pool> Pool* AllocV<Pool>::s_pool = nullptr;
 
@@ -164,6 +181,16 @@ struct Fixture {
     std::map<Obj*, Live> live;
     std::deque<Obj*> held[MAXTH];
     long nonce_ctr = 0, foreign_ctr = 0;
+    std::map<Obj*, long> heap_label;        // stable label of an object outside the preallocated block (by address)
+    std::vector<long> initial_queue;        // labels of the free queue's content when the scheduled program starts
+    long label_of( Obj* p )
+    {
+        int bi = block_index( p );
+        if ( bi >= 0 ) return bi + 1;
+        auto it = heap_label.find( p );
+        if ( it == heap_label.end()) it = heap_label.insert( std::make_pair( p, 100 + ++foreign_ctr )).first;
+        return it->second;
+    }
     // objects of the preallocated block
     bool out[MAXCAP];           // allocated to somebody
     int freeing[MAXCAP];        // deallocate() calls in progress
@@ -222,8 +249,18 @@ struct Fixture {
             size_t rot = size_t( c.index % ( 2 * cap + 1 ));
             for ( size_t i = 0; i < rot; ++i ) P->free( P->alloc());
         }
+        for ( Obj* p : P->content()) initial_queue.push_back( label_of( p ));
     }
-    std::string spec() const { return "none"; }
+    // The history is judged against the sequential pool (Spec.pool: an allocation returns the oldest free object,
+    // goes to the heap / fails only when the free queue is empty; a deallocated object is queued), started with the
+    // free queue as the warm-up left it.  kind: 0 vyukov, 1 lazy, 2 bounded.
+    std::string spec() const
+    {
+        std::ostringstream os;
+        os << "pool " << ( P->d.lazy ? 1 : P->d.bounded ? 2 : 0 ) << ' ' << cap;
+        for ( long l : initial_queue ) os << ' ' << l;
+        return os.str();
+    }
 
     std::vector<std::vector<Op>> program( Rng& r, int nth, int nops )
     {
@@ -332,7 +369,7 @@ struct Fixture {
         }
         else {
             ++n_other;
-            label = 100 + ++foreign_ctr;
+            label = label_of( p );
             if ( P->d.bounded )
                 fail( "foreign-object bounded pool returned an object outside its block to " + std::to_string( holder ));
             else if ( prealloc ) {
